@@ -1057,6 +1057,7 @@ func c05LayoutReport(c *core.Ctx, k, d, src string, lx, mi int) {
 }
 
 func c05Run(c *core.Ctx) {
+	processWarmup(c)
 	c05PostfixOnBuiltin(c)
 	c05Layout(c)
 	c05Group(c)
